@@ -50,7 +50,12 @@ fn parse_str_literal(input: &Literal) -> String {
 				Some(chr) => panic!("unknown escape sequence: {}", chr),
 				None => panic!(""),
 			},
-			Some('"') => break,
+			Some('"') => {
+				if chars.next().is_some() {
+					panic!("unexpected characters after the closing `\"` of the string literal, suffixes are not supported");
+				}
+				break;
+			},
 			Some(chr) => chr,
 			None => panic!("unexpected end of string literal, missing `\"` terminator?"),
 		};
